@@ -324,8 +324,9 @@ impl C20 {
             match tier {
                 Tier::Quick => push(vec![1, 2], 5, 3, k),
                 Tier::Thorough => {
-                    push(vec![1, 2], 8, 5, k);
-                    push(vec![1, 2, 3], 7, 4, k);
+                    // ~17 operations per live id: the state count grows by about x6 per level
+                    push(vec![1, 2], 7, 4, k);
+                    push(vec![1, 2, 3], 5, 3, k);
                 }
             }
         }
